@@ -91,9 +91,12 @@ def run_case(case, rec, cid):
     if k == "conv":
         def f():
             p = mk_tp(case["p"])
+            gc = p.get_calendar_date()
+            # the civil day as the formatting layer sees it (whatever representation p is held in)
+            sf = [int(p.strftime("%Y"))] + [int(x) for x in p.strftime("%m %d %j").split()] if 0 <= gc[0] <= 9999 and 0 <= p.year <= 9999 else []
             return dict(p=proj_tp(p), tc=proj_tp(p.to_calendar_date()), to=proj_tp(p.to_ordinal_date()),
-                        tw=proj_tp(p.to_week_date()), gc=[I(v) for v in p.get_calendar_date()],
-                        go=[I(v) for v in p.get_ordinal_date()], gw=[I(v) for v in p.get_week_date()])
+                        tw=proj_tp(p.to_week_date()), gc=[I(v) for v in gc],
+                        go=[I(v) for v in p.get_ordinal_date()], gw=[I(v) for v in p.get_week_date()], sf=sf)
         st, val = outcome(f)
         if st == "err":
             rec.ev("Raised", cid, what="object-level conversion", **err_info(val))
